@@ -8,6 +8,9 @@ import vcommon
 from checks import pcommon
 
 LEVEL = "exploration"
+# libevent times its timers by the coarse monotonic clock, which may read up to a tick (4-10 ms) behind: an acceptance counts as
+# premature only when it is more than 50 ms early (the changes this oracle is for make it early by the gap between two clients: 80 ms+)
+TIMER_SLACK = 0.05
 PROPS = ["C02"]
 
 
@@ -52,7 +55,7 @@ def timer_reuse_worker(a):
     how = a["how"]
     cid = rng.choice([5, 40, 1029])
     try:
-        t0 = time.time()
+        t0 = time.monotonic()
         s.do({"t": "announce", "id": cid, "ip": "192.0.2.1", "port": 1001})
         for ev in ({"t": "password", "id": cid, "text": "+x alice pw"}, {"t": "host", "id": cid, "name": "ha"}, {"t": "ident", "id": cid, "name": "ia"},
                    {"t": "nick", "id": cid, "name": "na"}, {"t": "userinfo", "id": cid, "user": "ua", "real": "A"}):
@@ -63,17 +66,17 @@ def timer_reuse_worker(a):
             s.do({"t": "registered", "id": cid})
         elif how == "refused":
             s.do({"t": "reply", "svc": "login.svc", "tag": "%x_1" % cid, "text": "NO denied"})
-        time.sleep(max(0.0, t0 + a["gap"] - time.time()))
-        tb = time.time()
+        time.sleep(max(0.0, t0 + a["gap"] - time.monotonic()))
+        tb = time.monotonic()
         s.do({"t": "announce", "id": cid, "ip": "192.0.2.2", "port": 1002})
         for ev in ({"t": "password", "id": cid, "text": "+x bob pw"}, {"t": "host", "id": cid, "name": "hb"}, {"t": "ident", "id": cid, "name": "ib"},
                    {"t": "nick", "id": cid, "name": "nb"}, {"t": "userinfo", "id": cid, "user": "ub", "real": "B"}):
             s.do(ev)
         seen_at = None
-        while time.time() < tb + 2.9 and not s.dead:
+        while time.monotonic() < tb + 2.9 and not s.dead:
             time.sleep(0.1)
             out = s.do({"t": "noise", "line": "-1 M irc.example.net 1"})
-            now = time.time()
+            now = time.monotonic()
             stats["timer_reuse_polls"] += 1
             for ln in out or []:
                 c = proto.classify(ln)
@@ -84,7 +87,7 @@ def timer_reuse_worker(a):
     except Exception:
         s.kill()
         raise
-    if seen_at is not None and seen_at < 2.0:
+    if seen_at is not None and seen_at < 2.0 - TIMER_SLACK:
         viol.append(("C02", "accept-before-timeout", "accept-before-timeout:" + how,
                      "id %d: the first holder ended (%s) and a newcomer took the id %.1f s later with a query unanswered; the newcomer was accepted %.2f s after ITS "
                      "announcement although the request timeout is 2 s (a timer of the earlier holder fired for it)\n%s" % (cid, how, a["gap"], seen_at, prun.render_trace(s.trace, 30)),
